@@ -217,7 +217,7 @@ where
             let phase_evals = &phase_evals;
             let phase_nt = &phase_nt;
             scope.spawn(move || {
-                let cfg = Config { cases: per as u32, failure_persistence: None, max_shrink_iters: 1200, max_local_rejects: 1, max_global_rejects: 1, ..Config::default() };
+                let cfg = Config { cases: per as u32, failure_persistence: None, max_shrink_iters: 1200, max_shrink_time: 150_000, max_local_rejects: 1, max_global_rejects: 1, ..Config::default() };
                 let rng = TestRng::from_seed(RngAlgorithm::ChaCha, &mix(ctx.seed, &ctx.prop, phase, w));
                 let mut runner = TestRunner::new_with_rng(cfg, rng);
                 let strategy = mk_strategy();
